@@ -89,6 +89,44 @@ type transport struct {
 	rs    internal.ResponseStorer            // Stores HTTP responses in the cache
 	vrh   internal.ValidationResponseHandler // Processes validation responses for revalidation
 	clock internal.Clock                     // Provides time-related operations, can be mocked for testing
+
+	// storeSem serialises the steps that look at what is stored now and then
+	// change it: freshening an entry after a 304, and invalidation. (A
+	// one-slot semaphore rather than a mutex, so that waiting for it is
+	// visible to testing/synctest; nil in hand-built transports.)
+	storeSem chan struct{}
+}
+
+func (r *transport) lockStore() (unlock func()) {
+	if r.storeSem == nil {
+		return func() {}
+	}
+	r.storeSem <- struct{}{}
+	return func() { <-r.storeSem }
+}
+
+// superseded reports whether the entry that was looked up (and validated with
+// a request sent some time ago) is no longer what the store holds under its
+// id: it was invalidated or replaced while the origin was being asked. Such an
+// entry is still a valid answer to the request at hand, but it must not be
+// written back.
+func (r *transport) superseded(stored *internal.Response, req *http.Request) bool {
+	current, err := r.cache.Get(stored.ID, req)
+	return err != nil || identityOf(current) != identityOf(stored)
+}
+
+// entryIdentity tells two responses stored under one id apart.
+type entryIdentity struct {
+	requestedAt, receivedAt  int64
+	etag, lastModified, date string
+}
+
+func identityOf(e *internal.Response) entryIdentity {
+	h := e.Data.Header
+	return entryIdentity{
+		e.RequestedAt.UnixNano(), e.ReceivedAt.UnixNano(),
+		h.Get("ETag"), h.Get("Last-Modified"), h.Get("Date"),
+	}
 }
 
 // ErrOpenCache is used as the panic value when the cache cannot be opened.
@@ -138,6 +176,8 @@ func newTransport(conn driver.Conn, options ...Option) http.RoundTripper {
 		uk:    internal.NewURLKeyer(),
 		ce:    internal.NewCacheabilityEvaluator(),
 		clock: internal.NewClock(),
+
+		storeSem: make(chan struct{}, 1),
 	}
 
 	for _, opt := range options {
@@ -248,8 +288,10 @@ func (r *transport) handleUnrecognizedMethod(
 	}
 	ensureHeader(resp)
 	if internal.IsNonErrorStatus(resp.StatusCode) {
+		unlock := r.lockStore()
 		refs, _ := r.cache.GetRefs(urlKey)
 		r.ci.InvalidateCache(req.URL, resp.Header, refs, urlKey)
+		unlock()
 	}
 	internal.CacheStatusBypass.ApplyTo(resp.Header)
 	r.logger.LogCacheBypass(
@@ -414,6 +456,13 @@ revalidate:
 		RefIndex:  refIndex,
 		Freshness: freshness,
 	}
+	if err == nil && resp.StatusCode == http.StatusNotModified {
+		// Freshening writes the entry that was looked up before the origin
+		// was asked: only if it is still the one that is stored.
+		unlock := r.lockStore()
+		defer unlock()
+		ctx.Superseded = r.superseded(stored, req)
+	}
 	return r.vrh.HandleValidationResponse(ctx, req, resp, err)
 }
 
@@ -455,6 +504,7 @@ func (r *transport) handleStaleWhileRevalidate(
 	req2 := req.Clone(req.Context())
 	req2 = withConditionalHeaders(req2, stored.Data.Header)
 	validates := validatesStored(req2, stored.Data.Header)
+	identity := identityOf(stored)
 	if strip != nil {
 		// After the validators were copied and before the cache adds its own
 		// fields (Age and the status fields are not the origin's to withhold).
@@ -468,7 +518,7 @@ func (r *transport) handleStaleWhileRevalidate(
 	//
 	// Open a discussion at github.com/bartventer/httpcache/issues if your use case requires
 	// guaranteed completion.
-	go r.backgroundRevalidate(req2, stored, urlKey, freshness, ccReq, validates)
+	go r.backgroundRevalidate(req2, stored, urlKey, freshness, ccReq, validates, identity)
 	internal.SetAgeHeader(stored.Data, r.clock, freshness.Age)
 	internal.CacheStatusStale.ApplyTo(stored.Data.Header)
 	r.logger.LogCacheStaleRevalidate(req, urlKey, internal.MiscFunc(func() internal.Misc {
@@ -488,6 +538,7 @@ func (r *transport) backgroundRevalidate(
 	freshness *internal.Freshness,
 	ccReq internal.CCRequestDirectives,
 	validates bool, // a 304 to req is about the stored response
+	identity entryIdentity, // of the stored response as it was served
 ) {
 	ctx, cancel := context.WithTimeout(req.Context(), r.swrTimeout)
 	defer cancel()
@@ -520,9 +571,18 @@ func (r *transport) backgroundRevalidate(
 		// The stored response has been handed to the caller and must not be
 		// touched again: work on a copy of the entry read back from the cache,
 		// and on the current variant index so that other variants are kept.
+		if resp.StatusCode == http.StatusNotModified {
+			// (see handleCacheHit: check and write-back are one step)
+			unlock := r.lockStore()
+			defer unlock()
+		}
 		own, err := r.cache.Get(stored.ID, req)
 		if err != nil {
 			errc <- err // entry is gone (e.g. invalidated); nothing to refresh
+			return
+		}
+		if resp.StatusCode == http.StatusNotModified && identityOf(own) != identity {
+			errc <- nil // replaced meanwhile: the 304 is about another representation
 			return
 		}
 		refs, _ := r.cache.GetRefs(urlKey)
